@@ -162,6 +162,7 @@ struct Run {
   uint64_t choice_ord = 0;
   uint64_t picks = 0;
   uint64_t plain_since_step = 0;
+  uint64_t sem_seq = 0, sem_set = 0;  // harness-event digests (ordered / order-insensitive): configuration-independent
 
   // strategy
   int strategy = STRAT_RW;
